@@ -171,6 +171,10 @@ class Repo:
         Must be unique; a vanished anchor is an AnalysisError.
         """
         hits = self.find_funcs(spec)
+        q = spec.split(':', 1)[-1]
+        exact = [h for h in hits if h.qualname == q]
+        if len(exact) == 1:
+            return exact[0]
         if len(hits) != 1:
             raise AnalysisError(
                 f"function anchor {spec!r}: {len(hits)} candidates "
@@ -338,12 +342,11 @@ def walk_local(func_node):
     while stack:
         n = stack.pop()
         yield n
+        if isinstance(n, (ast.FunctionDef, ast.AsyncFunctionDef,
+                          ast.ClassDef, ast.Lambda)):
+            # the def node itself is visible, its body is another scope
+            continue
         for c in ast.iter_child_nodes(n):
-            if isinstance(c, (ast.FunctionDef, ast.AsyncFunctionDef,
-                              ast.ClassDef, ast.Lambda)):
-                # still yield the def node itself (so callers can see it)
-                yield c
-                continue
             stack.append(c)
 
 
